@@ -63,6 +63,14 @@ def run(ctx):
     if ctx.tier == "quick":      # several concurrent executions make validation expensive: every 6th scenario, offset by the seed
         scs = scs[ctx.seed % 6::6] + scs[-24:]
     p_c07.run_family(ctx, "cb", scs, props=("C04",))
+    # time-based breakers with a short open delay under retries that wait (sequential machine, direction A): rejected while
+    # open, the trial after the delay, re-opening / closing inside one execution and across successive executions
+    import seq
+    binary = vlib.build_harness(ctx)
+    outs_t = [seq.out("R1"), seq.out("R0", "E1"), seq.out("R0", "E1", d=1), seq.out("R1", d=2)]
+    st = [["rpW", "cbT"], ["rpW", "cbR"], ["cbT", "rpW"], ["rpD", "cbT"], ["rpW", "fbO", "cbT"], ["rpW", "cbT", "cbR"], ["rpW", "cbR", "to"]]
+    mm = seq.run_family(ctx, binary, "cbseq", st, outs=outs_t, maxcalls=4, execs=2 if ctx.tier == "quick" else 3)
+    seq.report(ctx, mm, lambda m: m["tag"] in ("calls", "ret", "verdict", "probe") or m.get("kind") == "cb")
     return vlib.finish(ctx, rule="4 breaker configurations (thresholds 1-2, success thresholds, delay 2-3) x 4 placements (alone, under retry, under a timeout that fires, under fallback) x 4 executions "
                        "(sync/async) with staggered starts, durations and success/failure patterns x optional cancellation; traces validated by TLC; open/half-open predicates on the trace; state and remaining "
                        "half-open permits probed at quiescence")
